@@ -425,7 +425,7 @@ def run(rep: Report, prog: Program, tier: str) -> None:
     from .c16 import selectors_and_rest
     from .common import RuleView
 
-    selectors_and_rest(RuleView(rep, "R3.13", only=("R16.4",), keep=lambda key, msg: "_resolve_sleep|" in key or "_resolve_sleep(" in msg), prog)
+    selectors_and_rest(RuleView(rep, "R3.13", only=("R16.4",), keep=lambda key, msg: "_resolve_sleep|" in key or "_resolve_sleep(" in msg or "|sleep_fn|" in key), prog)
     rep.floor("R3.13", 8)
     # the remaining conjuncts of "retry exactly when permitted" are decided by the rules of the
     # properties that own them; they are re-run here under this property's id
